@@ -44,6 +44,8 @@ CLAIMED = {
          "division-vs-regexp after 18 kinds of preceding text; token sequences with symbolic whitespace and // comments in the gaps; termination of NextToken for every byte string of length <= 2 / 3.", "4 C14"),
  "C20": ("API part only (the command-line driver is not covered yet, see DESIGN.md): Run against Execute for values of all types and provenances incl. a host function returning nothing, run-time errors and scripts running off the end; SetVariable/GetVariable round trips for all types in three call orders; host functions of arity 0..3 with symbolic distinct arguments and all result types incl. void; "
          "NoOptimize leaves the compiler's output untouched byte for byte.", "4 C20"),
+ "C12": ("The real parser is run on every pair (quick) / triple (thorough) of the 18 binary operators, with prefix operators before and index/call after one operand, and its tree is compared structurally with an independent precedence-climbing parser parameterised only by the statement's binding order; "
+         "minimal, redundant and full parenthesisations of a OP1 b OP2 c over 12 operators are executed on symbolic integers and must agree with each other and with the language definition of the implied grouping (solver, all operand values); ternary arms with and without redundant parentheses, nested ternaries rejected.", "4 C12"),
 }
 
 TECH = "bounded symbolic execution of the repository's go/ssa (own SSA interpreter fork) with SMT (z3/cvc5) deciding each path assertion; native replay of models"
